@@ -232,10 +232,10 @@ worker = functools.partial(kindl.guarded_worker, PID, body)
 # replay: Riccati reference
 
 
-def riccati_errors(n_list=(32, 128)):
-    """max relative error of the surface concentration transfer function of the
-    real solver against a DOP853 Riccati integration, for smooth anisotropic
-    profiles, at n and 4n layers."""
+def riccati_errors(n_list=(64, 256)):
+    """max relative error of the admittance p^/q^ of the real solver (surface and
+    three quarters of the column) against a DOP853 Riccati integration of the
+    same boundary-value problem, smooth anisotropic profiles, at n and 4n layers."""
     from scipy.integrate import solve_ivp
 
     real = kindl.real_pkg()
@@ -244,20 +244,21 @@ def riccati_errors(n_list=(32, 128)):
 
     def prof_at(zz):
         u = 2.0 * (zz / zt_) ** 0.2
-        v = -1.0 * (zz / zt_) ** 0.2
+        v = -0.6 * (zz / zt_) ** 0.2
         Kz = 0.4 * 0.3 * zz
-        return u, v, 1.5 * Kz + 0.2, 0.8 * Kz + 0.1, Kz
+        return u, v, 2.5 * Kz + 0.3, 0.6 * Kz + 0.05, Kz
 
     nx = ny = 8
-    dom = (400.0, 320.0)
+    dom = (96.0, 80.0)
     out = []
     for n in n_list:
         z = np.linspace(zb, zt_, n + 1)
+        lv = [0, (3 * n) // 4]
         q = np.zeros((ny, nx))
         q[0, 0] = 1.0
-        g, c, f = S(q, z, prof_at(z), dom, 0, modes=(nx, ny), halo=0.0, precision="double")
-        Ph = np.fft.fft2(c, norm="forward")
-        Qh = np.fft.fft2(q, norm="forward")
+        g, c, f = S(q, z, prof_at(z), dom, lv, modes=(nx, ny), halo=0.0, precision="double")
+        Ph = np.fft.fft2(c, axes=(1, 2), norm="forward")
+        Qh = np.fft.fft2(f, axes=(1, 2), norm="forward")
         worst = 0.0
         for ky in (0, 1, 2, -1, -2):
             for kx in (1, 2, -1, -2, 0):
@@ -282,10 +283,11 @@ def riccati_errors(n_list=(32, 128)):
                     Tz, Kz = T(zz)
                     return [-1.0 / Kz - Tz * r[0] ** 2]
 
-                sol = solve_ivp(rhs, (zt_, zb), [complex(r_top)], method="DOP853", rtol=1e-11, atol=1e-14)
-                r0 = sol.y[0, -1]
-                got = Ph[ky % ny, kx % nx] / Qh[ky % ny, kx % nx]
-                worst = max(worst, abs(got - r0) / abs(r0))
+                sol = solve_ivp(rhs, (zt_, zb), [complex(r_top)], method="DOP853", rtol=1e-11, atol=1e-14,
+                                t_eval=[z[lv[1]], zb])
+                for k, r_ex in ((1, sol.y[0, 0]), (0, sol.y[0, 1])):
+                    got = Ph[k, ky % ny, kx % nx] / Qh[k, ky % ny, kx % nx]
+                    worst = max(worst, abs(got - r_ex) / abs(r_ex))
         out.append(worst)
     return out
 
